@@ -5,6 +5,8 @@ export CARGO_NET_OFFLINE=true
 cd "$(dirname "$0")"
 mkdir -p work replays evidence
 (cd harness && cargo build --offline --bins 2>&1 | tail -3)
+# the release build (no debug assertions / overflow checks) is the second configuration of every quick check
+(cd harness && cargo build --offline --release --bins 2>&1 | tail -1)
 # konst built with its `debug` feature (own target directory), used by the C01 and C03 quick checks
 (cd harness && cargo build --offline --features konst_debug --target-dir target/feat-konst_debug --bin c01 --bin c03 2>&1 | tail -1)
 echo "setup ok"
